@@ -18,6 +18,8 @@ import warnings
 warnings.simplefilter("ignore")
 
 import stix2  # noqa: E402
+import stix2.base  # noqa: E402
+import stix2.registry  # noqa: E402
 from stix2.base import _STIXBase  # noqa: E402
 
 VERIF = os.environ.get("VERIF_DIR") or os.path.dirname(os.path.dirname(os.path.dirname(os.path.abspath(__file__))))
@@ -62,6 +64,32 @@ def make(case):
     return cls(allow_custom=case.get("allow", False), **case["data"])
 
 
+def derive(obj, how, allow):
+    """Objects the library builds from other objects' Python values (datetimes with their precision
+    metadata, nested objects), not from JSON-like data."""
+    import copy
+    if how == "deepcopy":
+        return copy.deepcopy(obj)
+    if how == "rebuild":
+        kwargs = dict(obj)
+        return type(obj)(allow_custom=allow or obj.has_custom, **kwargs)
+    if how == "other-version":
+        ver = "2.0" if cid_of(obj).startswith("2.1") else "2.1"
+        t = obj["type"]
+        cls = stix2.registry.class_for_type(t, ver, "objects") or stix2.registry.class_for_type(t, ver, "observables")
+        if cls is None:
+            raise LookupError(t)
+        kwargs = {k: v for k, v in obj.items() if k in cls._properties and k != "spec_version"}
+        if ver == "2.0" and issubclass(cls, stix2.base._Observable):
+            # a 2.0 observable outside a container has no valid object references
+            kwargs = {k: v for k, v in kwargs.items() if not (k.endswith("_ref") or k.endswith("_refs"))}
+            kwargs.pop("id", None)
+        return cls(allow_custom=allow or obj.has_custom, **kwargs)
+    if how == "new-version":
+        return obj.new_version()
+    raise ValueError(how)
+
+
 def pairs_top(text):
     """top-level member names of a JSON object text, in textual order"""
     v = json.loads(text, object_pairs_hook=lambda p: p)
@@ -81,6 +109,15 @@ def observe(case):
     if not isinstance(obj, _STIXBase):
         out["err"] = "not-an-object:" + type(obj).__name__
         return out
+    if case.get("derive"):
+        try:
+            obj = derive(obj, case["derive"], case.get("allow", False))
+        except RecursionError:
+            out["err"] = "derive:RecursionError"
+            return out
+        except Exception as e:  # noqa: BLE001
+            out["err"] = "derive:" + type(e).__name__
+            return out
     out["created"] = True
     out["cls"] = cid_of(obj)
     out["hc"] = bool(obj.has_custom)
@@ -101,7 +138,7 @@ def observe(case):
             o["json_err"] = type(e).__name__
             continue
         try:
-            back = stix2.parse(text, allow_custom=case.get("allow", False))
+            back = stix2.parse(text, allow_custom=bool(case.get("allow", False) or (case.get("derive") and obj.has_custom)))
         except Exception as e:  # noqa: BLE001
             o["parse_err"] = type(e).__name__ + ": " + str(e)[:200]
             continue
